@@ -79,3 +79,159 @@ EXTERNS = {
   'AsyncResult.wait': dict(params=[('timeout', 'real?')], yields=True, returns='bool',
                            notes='blocks the calling greenlet: other greenlets run (gevent)'),
 }
+
+# ---------------------------------------------------------------------------- watermark pool (C07)
+CLASSES.update({
+  'WatermarkPoolSink': dict(file='scales/pool/watermark.py', path='WatermarkPoolSink', bases=['PoolSink'], fields={
+    '_cache': 'deque[Channel]', '_waiters': 'deque[tuple[ClientMessageSinkStack,Message,any,any]]',
+    '_min_size': 'int', '_max_size': 'int', '_max_queue_size': 'int', '_current_size': 'int', '_state': 'int',
+    'endpoint': 'any',
+    # ghost: the connections currently lent to a request
+    'g_lent': 'set[any]'}, ghost=['g_lent']),
+  'QueuingMessageSink': dict(file='scales/pool/watermark.py', path='QueuingMessageSink', bases=['Channel'],
+                             fields={'_queue': 'deque[tuple[ClientMessageSinkStack,Message,any,any]]'}),
+  'MaxWaitersError': dict(file='scales/pool/watermark.py', path='MaxWaitersError', bases=[], fields={}),
+})
+
+PREDICATES = {
+  'is_real_sink': (['s'], 'not dyn_is(s, QueuingMessageSink) and not dyn_is(s, FailingMessageSink)'),
+  # connections in existence = lent + cached, never more than the high watermark; never both lent and cached
+  'PoolInv': (['p'],
+     '0 <= p._min_size and p._current_size == card(p.g_lent) + len(p._cache) and card(p.g_lent) >= 0 and '
+     'p._current_size <= p._max_size and len(p._waiters) <= p._max_queue_size and '
+     'forall(q, dq_lo(p._cache), dq_hi(p._cache), not (dq_at(p._cache, q) in p.g_lent) and allocated(dq_at(p._cache, q)) and is_real_sink(dq_at(p._cache, q))) and '
+     'forall((i, j), implies(dq_lo(p._cache) <= i and i < j and j < dq_hi(p._cache), dq_at(p._cache, i) != dq_at(p._cache, j))) and '
+     'forall(x, "any", implies(x in p.g_lent, allocated(x))) and '
+     'allocated(p._cache) and allocated(p._waiters) and allocated(p.g_lent)'),
+}
+
+CONCURRENCY['Watermark'] = dict(
+  state=['deque[Channel]', 'deque[tuple[ClientMessageSinkStack,Message,any,any]]', 'WatermarkPoolSink._current_size',
+         'WatermarkPoolSink._state', 'set[any]', 'Channel.state', 'Channel.g_opens', 'Channel.g_closes', 'deque[tuple[AnySink,any]]'],
+  invariant=['PoolInv(self)'],
+  guarantee=['self._min_size == old(self._min_size) and self._max_size == old(self._max_size) and self._max_queue_size == old(self._max_queue_size)'],
+)
+
+FUNCTIONS.update({
+  'WatermarkPoolSink._DiscardSink': dict(
+    file='scales/pool/watermark.py', cls='WatermarkPoolSink', params={'sink': 'Channel'},
+    requires=[], ensures=['sink.g_closes == old(sink.g_closes) + 1',
+                          'forall_ref(c, Channel, implies(c != sink, c.g_closes == old(c.g_closes) and c.state == old(c.state)), c.g_closes)'],
+    modifies=['Channel.state', 'Channel.g_closes'],
+    props=['C07'],
+  ),
+  'WatermarkPoolSink._Dequeue': dict(
+    file='scales/pool/watermark.py', cls='WatermarkPoolSink', returns='Channel?', conc=None, guar=[],
+    locals={'item': 'Channel'},
+    requires=['PoolInv(self)'],
+    ensures=['implies(result is not None, not (result in self.g_lent) '
+             '        and result.state <= ChannelState.Open and is_real_sink(result))',
+             'implies(result is None, len(self._cache) == 0)',
+             'self.g_lent == old(self.g_lent)', 'set_eq(self.g_lent, old(setof(self.g_lent)))',
+             # taking a sink out of the cache keeps the accounting: the caller owns result (not yet in g_lent)
+             'self._current_size == card(self.g_lent) + len(self._cache) + (1 if result is not None else 0)',
+             'self._current_size <= old(self._current_size)',
+             # what stays cached is still well-formed
+             'forall(q, dq_lo(self._cache), dq_hi(self._cache), not (dq_at(self._cache, q) in self.g_lent) and allocated(dq_at(self._cache, q)) and is_real_sink(dq_at(self._cache, q)) and dq_at(self._cache, q) != result)',
+             'forall((i, j), implies(dq_lo(self._cache) <= i and i < j and j < dq_hi(self._cache), dq_at(self._cache, i) != dq_at(self._cache, j)))'],
+    modifies=['deque[Channel]', 'Channel.state', 'Channel.g_closes', 'WatermarkPoolSink._current_size'],
+    loops={0: dict(invariant=['0 <= self._min_size and card(self.g_lent) >= 0 and self._current_size == card(self.g_lent) + len(self._cache)',
+                              'self._current_size <= self._max_size',
+                              'forall(q, dq_lo(self._cache), dq_hi(self._cache), not (dq_at(self._cache, q) in self.g_lent) and allocated(dq_at(self._cache, q)) and is_real_sink(dq_at(self._cache, q)))',
+                              'forall((i, j), implies(dq_lo(self._cache) <= i and i < j and j < dq_hi(self._cache), dq_at(self._cache, i) != dq_at(self._cache, j)))',
+                              'self._current_size <= old(self._current_size)', 'dq_lo(self._cache) >= old(dq_lo(self._cache)) and dq_hi(self._cache) == old(dq_hi(self._cache))',
+                              'forall(q, dq_lo(self._cache), dq_hi(self._cache), dq_at(self._cache, q) == old(dq_at(self._cache, q)))',
+                              'set_eq(self.g_lent, old(setof(self.g_lent)))', 'allocated(self._cache)'],
+                   modifies=['deque[Channel]', 'Channel.state', 'Channel.g_closes', 'WatermarkPoolSink._current_size'])},
+    props=['C07'],
+  ),
+})
+
+FUNCTIONS.update({
+  'QueuingMessageSink.AsyncProcessRequest': dict(
+    file='scales/pool/watermark.py', cls='QueuingMessageSink',
+    params={'sink_stack': 'ClientMessageSinkStack', 'msg': 'Message', 'stream': 'any', 'headers': 'any'},
+    requires=['allocated(self._queue)'],
+    # waiters are appended at the tail: arrival order
+    ensures=['len(self._queue) == old(len(self._queue)) + 1', 'self._queue[len(self._queue) - 1][0] == sink_stack',
+             'forall(k, 0, old(len(self._queue)), self._queue[k][0] == old(self._queue[k][0]))'],
+    modifies=['deque[tuple[ClientMessageSinkStack,Message,any,any]]'],
+    props=['C07'],
+  ),
+
+  'WatermarkPoolSink._Get': dict(
+    file='scales/pool/watermark.py', cls='WatermarkPoolSink', returns='Channel', conc='Watermark', may_yield=True,
+    locals={'cached': 'Channel?', 'sink': 'Channel'},
+    requires=[],
+    ensures=[
+      # a real connection is lent to exactly this request
+      'implies(is_real_sink(result), result in self.g_lent)',
+      'implies(dyn_is(result, QueuingMessageSink), fresh(result))',
+    ],
+    modifies=['deque[Channel]', 'WatermarkPoolSink._current_size', 'set[any]', 'Channel.state', 'Channel.g_opens', 'Channel.g_closes',
+              'Channel.on_faulted', 'FailingMessageSink._ex', 'QueuingMessageSink._queue', 'ClientMessageSink._on_faulted', 'MessageSink._next', '$cls'],
+    allocates='any',
+    # only the request a connection is lent to gives it back: it stays lent while we wait for it to open
+    yields=[{'at': 'sink.Open().wait()', 'rely': ['sink in self.g_lent']}],
+    ghost=[
+      {'before': 'return cached', 'do': [
+        'prove(not (cached in self.g_lent), "never-lent-twice")', 'self.g_lent.add(cached)']},
+      {'before': 'self._current_size += 1', 'do': ['prove(self._current_size < self._max_size, "creates-only-below-the-high-watermark")']},
+      {'after': 'sink = self._sink_provider.CreateSink(self._properties)', 'do': ['self.g_lent.add(sink)']},
+      {'before': 'return FailingMessageSink(MaxWaitersError)', 'do': [
+        'prove(len(self._waiters) >= self._max_queue_size and self._current_size >= self._max_size, "fails-only-when-pool-and-queue-are-full")']},
+      {'before': 'return QueuingMessageSink(self._waiters)', 'do': [
+        'prove(len(self._waiters) < self._max_queue_size and self._current_size >= self._max_size, "queues-only-at-the-high-watermark-with-room")']},
+    ],
+    props=['C07'],
+  ),
+
+  'WatermarkPoolSink.Close': dict(
+    file='scales/pool/watermark.py', cls='WatermarkPoolSink', trusted=True,
+    requires=[], ensures=['self._state == ChannelState.Closed'],
+    modifies=['WatermarkPoolSink._state', 'Channel.state', 'Channel.g_closes', 'deque[tuple[AnySink,any]]', 'AnySink.g_invoked'],
+    allocates=True,
+    notes='list-comprehension loops over the cache and the waiters (fail every waiter with ServiceClosedError): not yet verified as a unit',
+  ),
+
+  'WatermarkPoolSink._Release': dict(
+    file='scales/pool/watermark.py', cls='WatermarkPoolSink', params={'sink': 'Channel'}, conc='Watermark',
+    requires=['allocated(sink)', 'implies(is_real_sink(sink), sink in self.g_lent)'],
+    ensures=[
+      # the connection is handed on (still lent), cached, or closed and un-counted -- never lost
+      'implies(old(is_real_sink(sink)) and not (sink in self.g_lent), '
+      '        exists(k, 0, len(self._cache), self._cache[k] == sink) or sink.g_closes == old(sink.g_closes) + 1 or self._state == ChannelState.Closed or old(self._state) == ChannelState.Closed)',
+      # retained connections: cached only at or below the low watermark
+      'implies(len(self._cache) > old(len(self._cache)), self._current_size <= self._min_size)',
+    ],
+    modifies=['deque[Channel]', 'WatermarkPoolSink._current_size', 'WatermarkPoolSink._state', 'set[any]',
+              'Channel.state', 'Channel.g_closes', 'deque[tuple[AnySink,any]]', 'AnySink.g_invoked'],
+    allocates=True,
+    ghost=[
+      {'after': 'self._current_size -= 1', 'do': ['self.g_lent.discard(sink)']},
+      {'before': 'self._cache.append(sink)', 'do': ['self.g_lent.discard(sink)']},
+    ],
+    props=['C07'],
+  ),
+
+  'WatermarkPoolSink._ProcessQueue': dict(
+    file='scales/pool/watermark.py', cls='WatermarkPoolSink', params={'sink': 'Channel'}, conc='Watermark',
+    # entry point of a spawned greenlet: only the shared-state invariant and ownership of the
+    # connection may be assumed -- not that the waiter it was spawned for is still there
+    requires=['allocated(sink)', 'sink in self.g_lent', 'is_real_sink(sink)'],
+    ensures=[],
+    modifies=['*'], allocates=True, guar=[],
+    loops={0: dict(invariant=['PoolInv(self)', 'sink in self.g_lent'],
+                   modifies=['deque[tuple[ClientMessageSinkStack,Message,any,any]]'])},
+    ghost=[
+      # FIFO: a waiter is passed over only if its call has already completed (drained stack)
+      {'before': 'continue', 'do': ['prove(len(sink_stack._stack) == 0, "skips-only-completed-waiters")']},
+      {'before': 'self._Release(sink)', 'do': ['prove(len(self._waiters) == 0 and PoolInv(self) and (sink in self.g_lent), "released-when-nobody-waits")']},
+      {'before': 'sink.AsyncProcessRequest(sink_stack, msg, stream, headers)', 'do': [
+        # the connection stays lent and goes to a waiter whose call is still pending
+        'prove(PoolInv(self) and (sink in self.g_lent), "capacity-conserved-when-handing-over")',
+        'prove(len(sink_stack._stack) >= 1, "waiter-still-pending")']},
+    ],
+    props=['C07', 'C12'],
+  ),
+})
